@@ -118,9 +118,11 @@ def scan1 (cfg : Cfg) : List Char → Option (NMatch × List Char)
       match g3 with
       | some x => some x
       | none =>
-        -- group 5 (str): \N{...}
+        -- group 5 (str): \N{...} — one token only under RAWCHARS; without it `\N` is an ordinary escape and the text after it is
+        -- normalised like the rest of the pattern (fix: D38; the code re-runs the substitution on the text after `\N`, which is
+        -- the same as not taking the alternative)
         let g5 : Option (NMatch × List Char) :=
-          if c = 'N' ∧ !cfg.isBytes then
+          if c = 'N' ∧ !cfg.isBytes ∧ cfg.raw then
             match r with
             | '{' :: r' => (splitBrace r').map fun (n, rest) => (.named n, rest)
             | _ => none
